@@ -4,7 +4,7 @@ import copy
 import io
 import random
 
-from harness import common, struct
+from harness import common, struct, divtree
 from harness.common import cN, cZ, clist, cpair, cbool
 
 FAMILY = 'divide'
@@ -19,7 +19,7 @@ ASSUMPTIONS = [
     'float halves and quantities are exercised by the oracle only (conservation within 1 ulp), not by the model',
 ]
 IMPORTS = ('From Viv Require Import Base.Assoc Base.Tree Model.Paths Model.Steps Model.Struct Model.StructC '
-           'Model.Dividers Corr.Structc Corr.C11c.')
+           'Model.Dividers Model.DivTree Corr.Structc Corr.C11c.')
 CHECK_FN = 'Corr.C11c.check_case'
 BAD_TERM = '(DSplitFn 0%Z true 1%Z 1%Z)'
 
@@ -33,7 +33,8 @@ def generate(seed, tier, enlarged=False):
         {'kind': 'split', 'z': -3, 'seed': 1},                  # corpus: the pinned witnesses
         {'kind': 'split', 'z': 2 ** 53 + 3, 'seed': 2},
         {'kind': 'indep', 'mode': 'dict_set', 'gens': 1, 'seed': 3},
-    ]
+    ] + divtree.corpus()
+    cases += [divtree.gen_case(rng) for _ in range(n // 3)]
     for i in range(n):
         r = i % 8
         if r < 3:
@@ -79,6 +80,8 @@ def run_impl(c):
         return {'ok': [int(a), int(b)]}
     if kind == 'hist':
         return struct.run_impl(c)
+    if kind == 'btree':
+        return divtree.run_impl(c)
     return run_indep(c)
 
 
@@ -188,6 +191,8 @@ def oracle(c, ob, rng):
             msgs.append(('binomial division of %d gives %d and %d' % (c['n'], a, b), 'binomial-not-conserved'))
     elif kind == 'indep':
         msgs.extend(ob['problems'][:2])
+    elif kind == 'btree':
+        msgs.extend(divtree.oracle(c, ob, rng))
     elif kind == 'hist':
         # conservation of s.n through every division of the history (explicit initial states excepted)
         prev = None
@@ -229,10 +234,14 @@ def render(c, ob):
         return '(DBinomFn %s %s %s %s)' % (cZ(c['n']), cZ(ob['ok'][0]), cZ(ob['ok'][0]), cZ(ob['ok'][1]))
     if kind == 'hist':
         return '(DHist %s)' % struct.render(c, ob)
+    if kind == 'btree':
+        return divtree.render(c, ob)
     return '(DSplitFn 0%Z true 0%Z 0%Z)'
 
 
 def nontrivial(c, ob):
+    if c['kind'] == 'btree':
+        return 'obs' in ob and any('d' in o and o['d'][0] != o['d'][1] for o in ob['obs'])
     return c['kind'] != 'hist' or len(ob.get('obs', [])) >= 3
 
 
